@@ -28,8 +28,8 @@ import time
 import traceback
 
 ROOT = os.path.dirname(os.path.dirname(os.path.abspath(__file__)))
-EVIDENCE_DIR = os.path.join(ROOT, "evidence")
-VIOLATION_DIR = os.path.join(ROOT, "violations")
+EVIDENCE_DIR = os.environ.get("VERIF_EVIDENCE_DIR") or os.path.join(ROOT, "evidence")  # overridden only by mutant/audit runs
+VIOLATION_DIR = os.environ.get("VERIF_VIOLATION_DIR") or os.path.join(ROOT, "violations")
 KNOWN_FILE = os.path.join(ROOT, "known_findings.json")
 
 
